@@ -28,7 +28,7 @@ impl Property for C07 {
     }
 
     fn rule(&self) -> &'static str {
-        "case = (table definition, statement [plain / DISTINCT / NULL-only projections / INNER or OUTER JOIN with fan-out / aggregate], input lines incl. non-admitted noise, split over 1..3 files, joined file, read granularity). LIMIT n is swept over n = 0..rows+2 per case, each n in batch mode and (non-join, non-aggregate statements) in follow mode under a generated writer/poll schedule. Reference: the same statement without LIMIT fed line by line, attributing every output row to its input line. Non-trivial iff the unlimited reference has >=2 rows and n is below that, or n = 0; distinct by (statement shape, n, file split, content hash, mode)."
+        "case = (table definition, statement [plain / DISTINCT / NULL-only projections / INNER or OUTER JOIN with fan-out / aggregate], input lines incl. non-admitted noise, split over 1..3 files, joined file, read granularity, twins [print_result=false / the same query twice in one process under one interrupt flag / an engine handed to the executor after the caller fed it the lines up to the limit]). LIMIT n is swept over n = 0..rows+2 per case, each n in batch mode and (non-join, non-aggregate statements) in follow mode under a generated writer/poll schedule. Reference: the same statement without LIMIT fed line by line, attributing every output row to its input line. Non-trivial iff the unlimited reference has >=2 rows and n is below that, or n = 0; distinct by (statement shape, n, file split, content hash, mode)."
     }
 
     fn assumptions(&self) -> Vec<String> {
@@ -144,6 +144,10 @@ impl Property for C07 {
             "only_n": J::Null,
             "single": rng.chance(1, 3),
             "noprint": rng.chance(1, 8),
+            // the same query a second time in the same process with the same interrupt flag; an engine handed to the
+            // executor after the caller has fed it the lines up to the limit itself
+            "twice": rng.chance(1, 8),
+            "handover": rng.chance(1, 8),
             "api_twice": rng.chance(1, 3),
             // "no limit" written as a very large LIMIT
             "huge_n": rng.chance(1, 4),
@@ -170,6 +174,8 @@ impl Property for C07 {
         set_field(case, "read_mode", json!("line"), &mut out);
         bool_field(case, "follow", false, &mut out);
         bool_field(case, "noprint", false, &mut out);
+        bool_field(case, "twice", false, &mut out);
+        bool_field(case, "handover", false, &mut out);
         bool_field(case, "api_twice", false, &mut out);
         bool_field(case, "huge_n", false, &mut out);
         bool_field(case, "pipe", false, &mut out);
@@ -383,6 +389,46 @@ impl Property for C07 {
                     return out;
                 }
                 out.probe("print_result_false_runs", 1);
+            }
+            // the same query run twice by one caller (same `running` flag, fresh engine and executor): the second run must
+            // print the first n rows again
+            if jbool(case, "twice") {
+                let mut t = b.clone();
+                t.repeat = 2;
+                let tr = run(&mut out, &format!("batch LIMIT {} run twice", n), &t, false);
+                let tfeatures = json!({"kind": kind, "n0": n == 0, "multi_file": files.iter().filter(|f| !f.is_empty()).count() > 1, "mode": "batch_twice"});
+                if tr.terminated() && tr.status == Status::Ok {
+                    let recs = records(&tr);
+                    let mut twice = expected.clone();
+                    twice.extend(expected.clone());
+                    if recs != twice || tr.total_lines as usize != 2 * l_n {
+                        failed(&mut out, "c07.second_run_differs", format!("run twice in one process: printed {} ({} lines consumed) but each run should print {} ({} lines)", show(&recs), tr.total_lines, show(&expected), l_n), &t, &tfeatures);
+                        return out;
+                    }
+                } else if tr.terminated() {
+                    failed(&mut out, "c07.error", format!("second run reports {}", status_label(&tr.status)), &t, &tfeatures);
+                    return out;
+                }
+                out.probe("run_twice_in_one_process", 1);
+            }
+            // an engine whose limit the caller has already reached by feeding it lines itself: the executor it is
+            // handed to must not consume or print anything more
+            if jbool(case, "handover") && !aggregate && n >= 1 && n <= rows && joined.is_none() {
+                let mut h = b.clone();
+                h.prefeed_lines = all_lines[..l_n].iter().map(|l| String::from_utf8_lossy(l).into_owned()).collect();
+                h.files = vec![(crate::scen::main_path(0), gen::join_lines(&all_lines[l_n..], true))];
+                let hr = run(&mut out, &format!("engine that reached LIMIT {} handed to the executor", n), &h, false);
+                let hfeatures = json!({"kind": kind, "n0": false, "multi_file": false, "mode": "handover"});
+                if hr.terminated() && hr.status == Status::Ok {
+                    if !records(&hr).is_empty() || hr.total_lines != 0 {
+                        failed(&mut out, "c07.consumed_beyond_limit", format!("the engine had produced its {} rows before it was handed to the executor, which still consumed {} lines and printed {}", n, hr.total_lines, show(&records(&hr))), &h, &hfeatures);
+                        return out;
+                    }
+                } else if hr.terminated() {
+                    failed(&mut out, "c07.error", format!("handed-over run reports {}", status_label(&hr.status)), &h, &hfeatures);
+                    return out;
+                }
+                out.probe("engine_handed_over_after_limit", 1);
             }
             out.probe("limit_zero", (n == 0) as u64);
             out.probe("limit_hit_at_file_boundary", (!aggregate && n >= 1 && n <= rows && files.len() > 1 && file_boundary(&files, l_n)) as u64);
